@@ -595,3 +595,66 @@ Proof.
     by (vm_compute; reflexivity).
   apply run_trace_sound in E. eapply ltrace_reach; eauto. apply reach_init.
 Qed.
+
+(* ------------------------------------------------------------------------ *)
+(* the widened checker is complete for the polling consumer (with Lemmas.lag)  *)
+
+Lemma is_timeout_true : forall l, is_timeout l = true -> l = Some XTimeout.
+Proof. intros [[e| |a]|] H; try discriminate; reflexivity. Qed.
+
+Lemma xlag_step : forall c l t x x', 0 < batch c -> chk x = false -> lag c t (base x) ->
+  xstep c Polling l x x' ->
+  chk x' = false /\
+  match l with
+  | None => lag c t (base x')
+  | Some e => exists t', xexec1 c Polling (mkX t false) e = Some (mkX t' false) /\ lag c t' (base x')
+  end.
+Proof.
+  intros c l t x x' Hb Hc L H.
+  destruct (xstep_waits c Polling l x x' eq_refl Hc H) as [Hc' [(l0 & El & Hl) | [Et Ex]]].
+  - split; auto. subst l. pose proof (lag_step c l0 t (base x) (base x') Hb L Hl) as S.
+    destruct l0 as [e|]; simpl; auto.
+    destruct S as (t' & E & L'). exists t'. split; auto.
+    unfold xexec1. simpl. rewrite E. reflexivity.
+  - split; auto. apply is_timeout_true in Et. subst l x'.
+    destruct (proj1 (timeout_enabled_iff c x) (ex_intro _ x H)) as (_ & (k & acc & Ec) & Eq).
+    assert (Hn : cc (base x) <> CProcess []) by congruence.
+    destruct L as [Lq Ld Lt Ly Lp Lc].
+    destruct (tau_c_catch_up c t (base x) Hb Lc Hn) as (U1 & U2 & U3 & U4 & U5 & U6).
+    exists (tau_c c t). split.
+    + unfold xexec1. simpl. unfold at_empty_get. rewrite U1, U3, <- Lq, Ec, Eq. reflexivity.
+    + constructor; try congruence.
+      * eapply lag_p_eq; eauto.
+      * left. congruence.
+Qed.
+
+Lemma xrun_trace_complete : forall c x ls x', 0 < batch c -> xpath c Polling x ls x' ->
+  forall t, chk x = false -> lag c t (base x) ->
+  exists t', xrun_trace c Polling (mkX t false) (obs_of ls) = Some (mkX t' false) /\ lag c t' (base x')
+             /\ chk x' = false.
+Proof.
+  intros c x ls x' Hb H. induction H as [x | x l x1 ls x2 Hs _ IH]; intros t Hc L.
+  - exists t. simpl. auto.
+  - destruct (xlag_step c l t x x1 Hb Hc L Hs) as [Hc1 S]. destruct l as [e|].
+    + destruct S as (t1 & E & L1). destruct (IH t1 Hc1 L1) as (t' & E' & L' & Hc').
+      exists t'. change (obs_of (Some e :: ls)) with (e :: obs_of ls). simpl. rewrite E. auto.
+    + apply IH; auto.
+Qed.
+
+Lemma xaccepts_complete_polling : forall c ls x, 0 < batch c ->
+  xpath c Polling (xinit c) ls x -> xfinal x -> xaccepts c Polling (obs_of ls) = true.
+Proof.
+  intros c ls x Hb Hp [Hf _].
+  destruct (xrun_trace_complete c _ _ _ Hb Hp (init c) eq_refl (lag_refl c (init c))) as (t' & E & L & _).
+  unfold xaccepts, xinit. rewrite E. simpl. rewrite (lag_final c t' (base x) Hb L Hf). reflexivity.
+Qed.
+
+(* exactness for the polling consumer: accepted = observable trace of a complete run *)
+Lemma xaccepts_exact_polling : forall c tr, 0 < batch c ->
+  (xaccepts c Polling tr = true <->
+   exists ls x, xpath c Polling (xinit c) ls x /\ obs_of ls = tr /\ xfinal x).
+Proof.
+  intros c tr Hb. split.
+  - intros H. destruct (xaccepts_sound c Polling tr H) as (ls & x & Hp & Ho & _ & Hf). eauto.
+  - intros (ls & x & Hp & Ho & Hf). subst tr. eapply xaccepts_complete_polling; eauto.
+Qed.
